@@ -117,7 +117,27 @@ def first_accepting(arms, P, pytype):
     return None
 
 
-def ladder_arms(ctx, legacy, fi=None, within=None, depth=0, extra=()):
+def _has_ref(x):
+    if isinstance(x, T.Ref):
+        return True
+    if isinstance(x, tuple):
+        return any(_has_ref(e) for e in x)
+    if isinstance(x, Sym):
+        return any(_has_ref(a) for a in x.args)
+    return False
+
+
+def _cond_leaves(v, guards=()):
+    """[(guard atoms, leaf value)] of a (nested) conditional value."""
+    if isinstance(v, Sym) and v.op == 'cond' and len(guards) < 12:
+        g, a, b = v.args
+        return _cond_leaves(a, guards + (g,)) + \
+            _cond_leaves(b, guards + (T.not_(g),))
+    return [(guards, v)]
+
+
+def ladder_arms(ctx, legacy, fi=None, within=None, depth=0, extra=(),
+                inline=()):
     """Arms of the integer ladder with the legacy switch off/on:
     [(ISet, Arm)], reject ISet, info.  An arm that merely delegates to
     another encode function (no tag of its own) is expanded by analysing
@@ -127,7 +147,7 @@ def ladder_arms(ctx, legacy, fi=None, within=None, depth=0, extra=()):
         fi = prog.function('encode.table_integer')
     if within is None:
         within = isets.ISet.all()
-    pol = ArmPolicy(prog, {fi.qualname}, flag=bool(legacy))
+    pol = ArmPolicy(prog, {fi.qualname} | set(inline), flag=bool(legacy))
     sargs = codec.symbolic_args(fi)
     P = sargs[0]
     if extra:
@@ -139,18 +159,43 @@ def ladder_arms(ctx, legacy, fi=None, within=None, depth=0, extra=()):
     rej_types = set()
     flag_reads = pol.flag_reads
     funcs = [fi.short]
+    leaves = []
     for o in outs:
         if o.kind != 'return':
             continue
+        # a return value that is a conditional over several encodings (the
+        # joined result of an inlined helper) is one arm per leaf
+        for guards, leaf in _cond_leaves(o.value):
+            leaves.append((o, guards, leaf))
+    for o, guards, leaf in leaves:
         try:
-            s = isets.path_set(o.state.kn.atoms, P).inter(within)
+            s = isets.path_set(list(o.state.kn.atoms) + list(guards),
+                               P).inter(within)
         except isets.NotInterval as err:
             problems.append('arm guard outside the interval logic: %s' % err)
             continue
-        arm = Arm(list(o.state.kn.atoms), o.value, o.state.kn)
+        if s.is_empty() and guards:
+            continue
+        kn_ = o.state.kn
+        if guards:
+            kn_ = o.state.kn.copy()
+            for g_ in guards:
+                kn_.assume(g_)
+        arm = Arm(list(o.state.kn.atoms) + list(guards), leaf, kn_)
         if arm.tag == b'' and arm.callee and arm.operand is P and \
                 depth < 4:
             sub_fi = prog.functions.get('pamqp.' + arm.callee)
+            if sub_fi is not None and \
+                    sub_fi.module.name.endswith('.encode') and \
+                    any(_has_ref(e) for e in arm.extra):
+                # the delegate receives objects of this run (a table of
+                # ranges ...): analyse it inlined instead of on its own
+                if sub_fi.qualname in inline:
+                    problems.append('delegate %s could not be inlined' %
+                                    sub_fi.short)
+                    continue
+                return ladder_arms(ctx, legacy, fi, within, depth, extra,
+                                   tuple(inline) + (sub_fi.qualname,))
             if sub_fi is not None and \
                     sub_fi.module.name.endswith('.encode'):
                 sub = ladder_arms(ctx, legacy, sub_fi, s, depth + 1,
